@@ -154,7 +154,7 @@ impl Prop for C15 {
                             }
                             Done::Flushed { .. } => {
                                 accounting(run, "after flush")?;
-                                if let OpSpec::Flush { wait: true } = op {
+                                if let OpSpec::Flush { wait: true, .. } = op {
                                     if run.worker_idle() {
                                         let n0 = run.rl().verif_cache_resident().len();
                                         run.rl().drain_cache_evictable();
